@@ -436,6 +436,26 @@ def metricGroups (cfg : Cfg) (items : List Item) (budget : Int) (ds : List Nat) 
     (if (dropped items).isEmpty then []
      else [{ ns := 0, grp := 0, metric := 0, budget := 0, denom := 0, depth := 0, discN := (dropped items).length, discSum := 0 }])
 
+/-! ### consecutive samplers sharing SamplerBuffers (aggregator_insert.go hands `sampler.SamplerBuffers` to the next NewSampler) -/
+
+/-- `c.items = c.items[:0]` in NewSampler: whatever rows the previous sampler left in the buffer, the new one starts empty -/
+def newSamplerItems (_left : List Item) : List Item := []
+
+/-- one sampler of a sequence: decisions, and the rows it leaves behind in the buffer (`h.items` after Add*) -/
+def runShared (cfg : Cfg) (left : List Item) (items : List Item) (budget : Int) (ds : List Nat) : List Act × List Item :=
+  (runBucket cfg (newSamplerItems left ++ items) budget ds, newSamplerItems left ++ items.filter (fun it => !(it.size < 1)))
+
+structure RunIn where
+  cfg : Cfg
+  items : List Item
+  budget : Int
+  draws : List Nat
+
+/-- the decisions of each sampler of a sequence -/
+def runSeq : List Item → List RunIn → List (List Act)
+  | _, [] => []
+  | left, r :: rs => (runShared r.cfg left r.items r.budget r.draws).1 :: runSeq (runShared r.cfg left r.items r.budget r.draws).2 rs
+
 /-! ### agent: (*Shard).sampleBucket around the sampler (agent_shard_send.go) -/
 
 /-- `remainingBudget` handed to `sampler.Run`: the per-shard budget, capped by MaxUncompressedBucketSize/2, minus the
